@@ -45,7 +45,7 @@ def run(R, env):
             # `(!config.stopped).then_some(()).ok_or(Halted)`): not vacuous as long as the handler can succeed at all
             from engine.analysis import success_exits as _se10
             found = [{"loc": None, "how": "world"}] if _se10(handler_ctx(prog, dctx, table[v])) else []
-        n += 1 if found else 0
+        n += 1 if (found or ok) else 0
         R.ob("C10.R1", v, ok, "success exit reachable while halted (no test of config.stopped dominates it): %s" % (off,), loc=off[0]["loc"] if off else (found[0]["loc"] if found else None), fn=table[v]["handlers"][0], found=found)
     R.floor("C10.R1", "halt-guarded variants", n, 6)
 
